@@ -68,7 +68,12 @@ def configure(L=None):
         os.makedirs(cfg, exist_ok=True)
         cmd = ['cmake', '-S', REPO, '-B', cfg, '-G', 'Ninja', '-DWITH_TESTS=OFF', '-DWITH_EXAMPLES=OFF', '-DCMAKE_EXPORT_COMPILE_COMMANDS=ON',
                '-DCMAKE_C_COMPILER=clang', '-DCMAKE_BUILD_TYPE=Release', '-DSANITIZE=OFF']
-        if L: cmd.append('-DCBOR_MAX_STACK_SIZE=%s' % L)
+        if L:
+            # build configuration spec: "<nesting limit>" and/or "g<buffer growth factor>", e.g. 3, "g3", "8g4"
+            m = re.match(r'^(\d+)?(?:g(\d+))?$', str(L))
+            if not m: raise SystemExit(harness_fault('bad build configuration spec %r' % (L,)))
+            if m.group(1): cmd.append('-DCBOR_MAX_STACK_SIZE=%s' % m.group(1))
+            if m.group(2): cmd.append('-DCBOR_BUFFER_GROWTH=%s' % m.group(2))
         r = sh(cmd)
         if r.returncode != 0 or not os.path.exists(cc_json):
             log(r.stdout[-2000:], r.stderr[-2000:]); raise SystemExit(harness_fault('cmake configure failed'))
@@ -508,6 +513,8 @@ def run_property(prop, tier, seed):
     t_start = time.time()
     tmpdir = os.path.join(BUILD, 'tmp-%s-%d' % (prop, os.getpid())); os.makedirs(tmpdir, exist_ok=True)
     phases = list(cfg['phases'])
+    if tier == 'thorough' and prop in ('C12', 'C04', 'C06', 'C03'):
+        phases.append(('asan', 'g3', 0, {'C12': 60000, 'C04': 60000, 'C06': 20000, 'C03': 40000}[prop]))   # swarm over builds: buffer growth factor 3
     if tier == 'thorough' and prop in ('C03', 'C04', 'C06', 'C11'):
         phases.append(('plainO2', None, 0, 640, 'valgrind'))   # uninitialised reads, which ASan cannot see
     if prop == 'C19' and tier == 'thorough':
